@@ -96,6 +96,12 @@ def classify(st, dialect, res):
     if dialect == "tsql" and ("kind:update" in f or "kind:merge" in f) and miss and not extra and not res["obs"]["pairs"]:
         return "F-C09-tsql-update-merge-without-column-lineage"
     local = set(sqlgen.local_names(st))
+    if ("from:paren_join_join" in f or "from:join_paren_join" in f) and extra and any(
+        any(f"<default>.{loc}." in x for loc in local for x in e) or "subquery#" in e[0] for e in extra
+    ):
+        return "F-C02-alias-inside-parenthesised-join-not-recognised"
+    if "kind:update" in f and not st.get("from") and miss and extra and all("." not in e[0] for e in extra):
+        return "F-C02-update-without-from-source-column-has-no-owner"
     if info["star_over_relations_sharing_a_name"] and miss and not extra:
         return "F-C11-star-over-tables-sharing-a-column-name"
     if info["dup_names_in_setop"]:
